@@ -726,7 +726,7 @@ End Lift.
 
 (* a small world for the non-vacuity example of Properties.v *)
 Definition ex_wc : wcfg :=
-  mkWC (mkG 20 3 99) [(99, [false; false]); (0, [true; false]); (1, [true; true])] [0; 1] 20
+  mkWC (mkG 20 3 99 10) [(99, [false; false]); (0, [true; false]); (1, [true; true])] [0; 1] 20
        (V.C17.Model.mkCfg 8 10 8 8 8 100) 50.
 Lemma ex_wc_ok : keys_ok ex_wc.
 Proof.
